@@ -20,6 +20,7 @@ var droppedPrefixes = []string{
 	"fmt.Print", "fmt.Fprint", "log.", "os.Stderr", "runtime.Gosched", "runtime/debug.",
 	"context.", "github.com/sirupsen/logrus.",
 	"sync.(*WaitGroup).", "sync.(*Once).",
+	"go.opentelemetry.io/collector/pdata/",
 }
 
 func (eng *Engine) isDropped(ref string, fn *types.Func) bool {
@@ -290,7 +291,12 @@ func (ex *Exec) modelled(st *State, ref string, fn *types.Func, recv *Val, args 
 		}
 	case "sync.(*Map).Load", "sync.(*Map).Store", "sync.(*Map).LoadOrStore", "sync.(*Map).Delete":
 		l := ex.derefLoc(st, recv)
-		if l != nil && l.Sh.Kind == "map" && len(args) > 0 && args[0].Sh != nil && args[0].Sh.Kind == "any" {
+		if l != nil && l.Sh.Kind == "map" && len(args) > 0 && args[0].Sh != nil {
+			anyT0 := types.NewInterfaceType(nil, nil)
+			args = append([]*Val(nil), args...)
+			for i := range args {
+				args[i] = ex.assignConv(st, args[i], anyT0, pos)
+			}
 			s := st
 			if sc != nil && sc.inOld {
 				s = sc.old
